@@ -127,6 +127,7 @@ class Backend:
         self.call_no = 0
         self.names = {}
         self.world_versions = []
+        self.empty_served = set()
         self.inv_start_version = 0
         self._put({"Id": "exec-op-0", "Type": "EXECUTION", "Status": "STARTED", "Name": "exec",
                    "StartTimestamp": ts(world.clock.now),
@@ -459,6 +460,9 @@ class Backend:
         self.inv_start_version = self.version
         ids = list(self.order)
         first = ids[: max(1, first_page)]
+        if self.w.cfg.get("empty_first_page") and self.w.inv > 1:
+            first = []  # "due to payload size limitations we may have an empty operations list"
+            self.w.hit("empty-first-page")
         rest = ids[len(first):]
         marker = ""
         if rest:
@@ -567,6 +571,13 @@ class FakeLambdaClient:
             w.rec("api-end", call=k, ok=False, err="bad-marker", applied=False)
             raise make_client_error("400")
         page = w.cfg.get("state_page") or 1000
+        if w.cfg.get("empty_mid_page") and Marker not in be.empty_served and len(ids) > 0:
+            be.empty_served.add(Marker)
+            out = {"Operations": [], "NextMarker": be._store_page(ids)}
+            be.empty_served.add(out["NextMarker"])
+            w.hit("empty-middle-page")
+            self._epilogue(k, 0, [])
+            return out
         cur, rest = ids[:page], ids[page:]
         out = {"Operations": [be.wire(be.ops[i]) for i in cur]}
         if rest:
